@@ -1571,6 +1571,9 @@ fn populate_symbol_db<'data>(
     buckets.par_iter_mut().enumerate().for_each(|(b, bucket)| {
         verbose_timing_phase!("Process symbol bucket");
 
+        #[cfg(wild_verif)]
+        crate::verif::sched_point(40);
+
         // The following approximation should be an upper bound on the number of global
         // names we'll have. There will likely be at least a few global symbols with the
         // same name, in which case the actual number will be slightly smaller.
